@@ -602,6 +602,8 @@ func runCase(c *Case, work string) {
 		c.SockAfter = true
 		_ = os.Remove(wf.SockAddr())
 	}
+	// the start lock file next to the socket address is created on demand and never removed by the agent
+	_ = os.Remove(wf.SockAddr() + ".lock")
 }
 
 // ---------------------------------------------------------------------------------------------
